@@ -20,7 +20,11 @@ def handle : List String → Option String
     match genEnsure (String.ofList p) (ds.map String.ofList) with
     | .ok (r, log) => some s!"{r} {log.length}"
     | .error e => some s!"gen-error {e}"
-  | ["c20.hist", ops] => do
+  | ["c20.hist", ops, pars] => do
+    let parList ← (splitList pars).mapM (fun (e : String) => match e.splitOn "=" with
+      | [a, b] => do some (← a.toNat?, ← b.toNat?)
+      | _ => none)
+    let par : Dir → Option Dir := fun d => (parList.find? (fun p => p.1 == d)).map (·.2)
     let ops ← (splitList ops).mapM (fun (o : String) =>
       match o.toList with
       | 'm' :: r => (match (String.ofList r).splitOn ":" with
@@ -35,7 +39,7 @@ def handle : List String → Option String
         | .mk h _ => if (s'.hs h).existing then "E" else "C"
         | .destroy _ => "R" ++ String.intercalate "+" ((s'.removed.take (s'.removed.length - acc.1.removed.length)).map (fun e => toString e.2.1))
         | _ => "-"
-      (s', acc.2 ++ [o])) (({} : OSt), [])
+      (s', acc.2 ++ [o])) (({ par := par } : OSt), [])
     some (String.intercalate "," outs)
   | _ => none
 
